@@ -60,7 +60,11 @@ fn gen_textures(r: &mut Rng, kind: &str) -> Vec<Tex> {
     };
     let mut v = Vec::new();
     for i in 0..n {
-        let name = format!("{}{}", r.pick(NAMES), if r.chance(1, 2) { i.to_string() } else { String::new() });
+        let mut name = format!("{}{}", r.pick(NAMES), if r.chance(1, 2) { i.to_string() } else { String::new() });
+        if r.chance(1, 12) {
+            // long names (64 bytes and more in the container's encoding)
+            name = if r.chance(1, 2) { format!("{}{}", "long_texture_name_".repeat(4), i) } else { format!("{}{}", "テクスチャ".repeat(8), i) };
+        }
         if kind == "tpl" {
             let w = r.range(1, 64);
             let h = r.range(1, 64);
